@@ -86,6 +86,9 @@ def run(repo, rep):
                                       'build_fncall with %d positional and %d keyword arguments produces the content %s, expected %s'
                                       % (na, nk, bad, want), nontrivial=True)
     rep.note('build_fncall(hug_sole_arg=True, trailing_comment=...) returns the hugged call without the comment; no caller in the package combines the two')
+    # the name of the callable: general_identifier interpreted on model callables (imported model, see identmodel.py)
+    from . import identmodel
+    n += identmodel.run(repo, rep, 'C17.a')
     rep.floor('C17.a', n, 50)
 
     # ---------------------------------------------------------------- C17.b
